@@ -53,11 +53,21 @@ def tie(ctx, tier_override=None, tag="tie"):
     mi = os.path.join(out_dir, "model_in.txt")
     if not _run_model(ctx, model, mi, os.path.join(out_dir, "model_out.txt")):
         return None
-    if not _run_model(ctx, model, mi, os.path.join(out_dir, "model_out_guard.txt"), ["guard"]):
+    # the guarded variant of the scanner model only matters for the scanner lines
+    scan_in = os.path.join(out_dir, "model_in_scan.txt")
+    scan_idx = []
+    with open(mi) as fi, open(scan_in, "w") as fo:
+        for i, line in enumerate(fi):
+            if not line.startswith("chk "):
+                fo.write(line)
+                scan_idx.append(i)
+    if not _run_model(ctx, model, scan_in, os.path.join(out_dir, "model_out_guard.txt"), ["guard"]):
         return None
     impl = common.read_lines(os.path.join(out_dir, "impl_out.txt"))
     m0 = common.read_lines(os.path.join(out_dir, "model_out.txt"))
-    m1 = common.read_lines(os.path.join(out_dir, "model_out_guard.txt"))
+    m1 = list(m0)
+    for i, line in zip(scan_idx, common.read_lines(os.path.join(out_dir, "model_out_guard.txt"))):
+        m1[i] = line
     cases = [json.loads(l) for l in common.read_lines(os.path.join(out_dir, "cases.txt"))]
     stats = json.load(open(os.path.join(out_dir, "stats.json")))
     failures = [json.loads(l) for l in common.read_lines(os.path.join(out_dir, "failures.jsonl"))]
